@@ -16,6 +16,7 @@ package main
 import (
 	"bytes"
 	"crypto/md5"
+	"encoding/json"
 	"fmt"
 	"math/rand"
 	"os"
@@ -322,6 +323,7 @@ type c02Base struct {
 	wire  [2][]byte
 	root  string
 	kind  string // flat, resume, archive
+	rel   string // resume-matrix: the relation of the existing destination to the source
 	names []string
 }
 
@@ -427,6 +429,38 @@ func genFaults(c *ctx) {
 		b.pre = []c01tPre{{rel: "f0.bin", content: old}}
 		bases = append(bases, b)
 	}
+	// the matrix of group resume-script through the real binaries: existing destination x protocol 3 / 4
+	// (small files: one hash block), faults on the numbers and flags of the exchange (see below)
+	for i, rel := range []string{"identical", "longer-same-prefix", "longer-diverging", "proper-prefix"} {
+		for _, proto := range []int{3, 4} {
+			if !c.thorough() && (i+proto)%2 == 1 && rel != "identical" {
+				continue
+			}
+			b := &c02Base{root: filepath.Join(work, fmt.Sprintf("rm%d_%d", i, proto)), kind: "resume-matrix", rel: rel}
+			b.cfg = e2eCfg{upload: (i+proto)%2 == 0, binary: i%2 == 1, proto: proto, timeout: 2, quiet: true, overwrite: true,
+				deadline: 25 * time.Second, startWait: 1500 * time.Millisecond, compress: []string{"no", "yes"}[i%2]}
+			rng := rand.New(rand.NewSource(c.rng.Int63()))
+			os.MkdirAll(filepath.Join(b.root, "s"), 0755)
+			src := fillBytes(rng, 300+rng.Intn(1500), rng.Intn(4))
+			p := filepath.Join(b.root, "s", "f0.bin")
+			os.WriteFile(p, src, 0644)
+			b.tops = []string{p}
+			var old []byte
+			switch rel {
+			case "identical":
+				old = append([]byte{}, src...)
+			case "longer-same-prefix":
+				old = append(append([]byte{}, src...), fillBytes(rng, 1+rng.Intn(300), 2)...)
+			case "longer-diverging":
+				old = append(append([]byte{}, src...), fillBytes(rng, 1+rng.Intn(300), 2)...)
+				old[rng.Intn(len(src))] ^= 0x41
+			default:
+				old = append([]byte{}, src[:1+rng.Intn(len(src)-1)]...)
+			}
+			b.pre = []c01tPre{{rel: "f0.bin", content: old}}
+			bases = append(bases, b)
+		}
+	}
 	// one small file; the SIZE message damaged to 0 and its echo damaged back: the size check of the
 	// receiving pipeline (protocol >= 2) is a race between the acknowledger and the saver
 	for i := 0; i < c.pick(2, 6); i++ {
@@ -482,6 +516,7 @@ func genFaults(c *ctx) {
 		bad   string
 		succ  string
 		tie   c02fOut
+		name  string // resume-matrix: the faults by name
 	}
 	var cases []*fcase
 	kinds := []string{"flip", "delete", "dup", "insert", "truncate", "cut", "dupr", "dropline", "dupline", "forge"}
@@ -543,6 +578,10 @@ func genFaults(c *ctx) {
 				}
 			case "dropline", "dupline", "forge":
 				f.prefix = []string{"#SUCC:", "#MD5:", "#SUCC:", "#DATA:", "#SIZE:", "#NAME:", "#HASH:"}[c.rng.Intn(7)]
+				if f.kind == "forge" && f.prefix == "#NAME:" {
+					// a NAME record replaced by another well-formed one is a scenario of its own (stale-name-record below)
+					f.prefix = "#MD5:"
+				}
 				f.dir = ddir
 				if f.prefix == "#SUCC:" {
 					f.dir = 1 - ddir
@@ -564,6 +603,93 @@ func genFaults(c *ctx) {
 				}
 			}
 			return f
+		}
+		if b.kind == "resume-matrix" {
+			// a well-formed line with another value in place of the one the baseline has: the hash-phase SIZE line
+			// (protocol 3: the first SIZE line of the direction that carries the file), the first HASH record,
+			// the first answer (the first SUCC line whose record has a match field)
+			reline := func(dir int, prefix string, pick func(payload []byte) bool, f func(payload []byte) []byte) *faultSpec {
+				n := 0
+				for _, lr := range lines[dir] {
+					l := b.wire[dir][lr[0] : lr[1]-1]
+					if !bytes.HasPrefix(l, []byte(prefix)) {
+						continue
+					}
+					n++
+					if pick(l[len(prefix):]) {
+						return &faultSpec{dir: dir, kind: "forge", prefix: prefix, nth: n, repl: prefix + string(f(l[len(prefix):])) + "\n"}
+					}
+				}
+				return nil
+			}
+			isAns := func(p []byte) bool {
+				d, err := trzsz.VerifDecodeString(string(p))
+				var raw map[string]any
+				return err == nil && json.Unmarshal(d, &raw) == nil && raw["match"] != nil
+			}
+			ans := func(f func(a *c02rAck)) *faultSpec {
+				return reline(1-ddir, "#SUCC:", isAns, func(p []byte) []byte {
+					d, _ := trzsz.VerifDecodeString(string(p))
+					var a c02rAck
+					json.Unmarshal(d, &a)
+					f(&a)
+					js, _ := json.Marshal(a)
+					return []byte(trzsz.VerifEncodeBytes(js))
+				})
+			}
+			size := func(op string) *faultSpec {
+				if b.cfg.proto >= 4 {
+					return nil
+				}
+				return reline(ddir, "#SIZE:", func([]byte) bool { return true }, func(p []byte) []byte {
+					n, _ := strconv.ParseInt(string(p), 10, 64)
+					return []byte(fmt.Sprint(c02rNum(n, op)))
+				})
+			}
+			hash := func(op string) *faultSpec {
+				return reline(ddir, "#HASH:", func([]byte) bool { return true }, func(p []byte) []byte {
+					d, _ := trzsz.VerifDecodeString(string(p))
+					var h c02rHash
+					json.Unmarshal(d, &h)
+					h.Step = c02rNum(h.Step, op)
+					js, _ := json.Marshal(h)
+					return []byte(trzsz.VerifEncodeBytes(js))
+				})
+			}
+			flip := func(a *c02rAck) { a.Match = !a.Match }
+			stale := func(a *c02rAck) { a.Step, a.Match = 64, false }
+			type named struct {
+				name string
+				fs   []*faultSpec
+			}
+			for _, nf := range []named{
+				{"answer:match-flip", []*faultSpec{ans(flip)}},
+				{"answer:stale-negative", []*faultSpec{ans(stale)}},
+				{"answer:last-digit", []*faultSpec{ans(func(a *c02rAck) { a.Step = c02rNum(a.Step, "last-digit") })}},
+				{"hash:digit-down", []*faultSpec{hash("digit-down")}},
+				{"size:digit-up", []*faultSpec{size("digit-up")}},
+				{"size:digit-append", []*faultSpec{size("digit-append")}},
+				{"size:digit-down+answer:match-flip", []*faultSpec{size("digit-down"), ans(flip)}},
+				{"size:zero+answer:stale-negative", []*faultSpec{size("zero"), ans(stale)}},
+			} {
+				var fs []faultSpec
+				ok := true
+				for _, f := range nf.fs {
+					if f == nil {
+						ok = false
+						break
+					}
+					fs = append(fs, *f)
+				}
+				if ok {
+					ph := make([]string, len(fs))
+					for i := range ph {
+						ph[i] = "resume"
+					}
+					cases = append(cases, &fcase{b: b, fs: fs, phase: ph, name: nf.name})
+				}
+			}
+			continue
 		}
 		if b.kind == "size-race" {
 			st, _ := os.Stat(b.tops[0])
@@ -597,6 +723,20 @@ func genFaults(c *ctx) {
 				cases = append(cases, &fcase{b: b, fs: []faultSpec{f}, phase: []string{"SUCC(hash)"}})
 			}
 			continue
+		}
+		if b.kind == "flat" && b.cfg.proto >= 3 && !b.cfg.overwrite {
+			// the NAME record of the second file lost and the (stale) record of the first delivered in its place
+			var first []byte
+			for _, lr := range lines[ddir] {
+				if bytes.HasPrefix(b.wire[ddir][lr[0]:], []byte("#NAME:")) {
+					first = b.wire[ddir][lr[0]:lr[1]]
+					break
+				}
+			}
+			if first != nil {
+				cases = append(cases, &fcase{b: b, phase: []string{"NAME"}, name: "stale-name-record",
+					fs: []faultSpec{{dir: ddir, kind: "forge", prefix: "#NAME:", nth: 2, repl: string(first)}}})
+			}
 		}
 		for k := 0; k < per; k++ {
 			fc := &fcase{b: b}
@@ -633,6 +773,18 @@ func genFaults(c *ctx) {
 			// success claimed: every source must be present, identical
 			if saved && len(names) != len(fc.b.tops) {
 				fc.bad = fmt.Sprintf("success shown with names %v for %d sources", names, len(fc.b.tops))
+				// what is there, compared with the sources
+				ents, _ := os.ReadDir(dest)
+				for _, e := range ents {
+					got, _ := os.ReadFile(filepath.Join(dest, e.Name()))
+					is := "no source"
+					for _, top := range fc.b.tops {
+						if want, err := os.ReadFile(top); err == nil && bytes.Equal(want, got) {
+							is = "content of " + filepath.Base(top)
+						}
+					}
+					fc.bad += fmt.Sprintf("; destination has %s (%d bytes, %s)", e.Name(), len(got), is)
+				}
 			} else if saved {
 				fc.bad = fc.b.identical(dest, names)
 			} else {
@@ -691,6 +843,17 @@ func genFaults(c *ctx) {
 		key := "silent-corruption:" + fc.fs[0].kind + ":" + fc.phase[0]
 		if fc.b.kind == "size-race" {
 			key = "size-race:e2e"
+		}
+		if fc.name == "stale-name-record" {
+			key = "stale-name-record"
+		}
+		if fc.b.kind == "resume-matrix" {
+			key = fmt.Sprintf("resume-e2e:p%d:%s", fc.b.cfg.proto, fc.name)
+			if fc.b.cfg.proto < 4 && strings.HasPrefix(fc.name, "size:") && strings.Contains(fc.name, "+answer:") {
+				// the hash-phase SIZE line of protocol 3 AND an answer damaged
+				key = "resume-e2e:p3-size-line"
+			}
+			c.count("resume-matrix:" + fc.b.rel + ":" + fc.name)
 		}
 		if fc.b.kind == "resume-blocks" {
 			// one fault on an answer of the prefix-hash exchange
